@@ -108,7 +108,9 @@ def gen(rng: random.Random, k: int, tier: str) -> dict:
                         "ntoys": rng.choice([40, 60]) if heavy else rng.choice([200, 400] if mode == "scripted" else [150, 300, 500]),
                         "mode": mode, "seed": rng.randrange(1 << 30), "route": rng.choice(["calculator", "calculator", "hypotest"]),
                         # a POI scan on ONE calculator object: distributions() is first called at another mu
-                        "scan_first": (round(mu * rng.choice([0.5, 2.0]), 3) if ts != "q0" and rng.random() < 0.3 else None)})
+                        "scan_first": (round(mu * rng.choice([0.5, 2.0]), 3) if ts != "q0" and rng.random() < 0.3 else None),
+                        # order of the calls in a scan: per-mu (statistic, distributions) or all observed statistics first
+                        "scan_order": rng.choice(["interleaved", "stats_first", "stats_first"])})
         else:
             kindm = rng.choice(["shapesys", "staterror", "normsys", "histosys"])
             nb = rng.choice([1, 2])
@@ -467,7 +469,14 @@ class World:
                               lambda: f"hypotest tail probs ({h_clsb},{h_clb}) differ from the calculator's on identical draws ({clsb},{clb})")
                 else:
                     calc = pyhf.infer.calculators.ToyCalculator(data, model, ntoys=N, test_stat=ts, track_progress=False)
-                    if op.get("scan_first") is not None:
+                    q_first = None
+                    if op.get("scan_first") is not None and op.get("scan_order") == "stats_first":
+                        # the observed statistics of the whole scan first, the toy distributions afterwards: the last
+                        # statistic evaluated before distributions(mu) belongs to ANOTHER mu
+                        ctx.probe("calculator_scan_stats_first")
+                        q_first = calc.teststatistic(mu)
+                        calc.teststatistic(op["scan_first"])
+                    elif op.get("scan_first") is not None:
                         ctx.probe("calculator_reused_for_second_poi")
                         calc.teststatistic(op["scan_first"])
                         calc.distributions(op["scan_first"])
@@ -475,7 +484,7 @@ class World:
                             self.script_calls = 0
                         else:
                             self._seed(op["seed"])
-                    q_obs = calc.teststatistic(mu)
+                    q_obs = calc.teststatistic(mu) if q_first is None else q_first
                     sb, bo = calc.distributions(mu)
                     clsb, clb, cls_ = calc.pvalues(q_obs, sb, bo)
             finally:
